@@ -95,6 +95,11 @@ type SimConn struct {
 	closed bool
 	// gotRST: a write went to a closed peer; later writes fail with EPIPE
 	gotRST bool
+	// LingerData: what had arrived from the peer before it closed stays readable after this end's
+	// writes were answered with a reset (Linux keeps the receive queue across an RST; a reset in
+	// CLOSE_WAIT is reported as EPIPE), and a writer blocked on a full buffer is woken by the peer's
+	// close and fails with EPIPE. Off by default: set per connection by the scenarios that need it.
+	LingerData bool
 	rdl    time.Time
 	wdl    time.Time
 	rw     *waiter
@@ -170,7 +175,7 @@ func (c *SimConn) Read(p []byte) (int, error) {
 			s.Mu.Unlock()
 			return 0, errClosed("read", c)
 		}
-		if c.In.rst || c.gotRST {
+		if c.In.rst || (c.gotRST && !(c.LingerData && (len(c.In.delivered) > 0 || c.In.inflightLen() > 0))) {
 			s.Mu.Unlock()
 			return 0, errReset("read", c)
 		}
@@ -235,6 +240,7 @@ func (c *SimConn) Write(p []byte) (int, error) {
 	s := c.n.s
 	s.Mu.Lock()
 	written := 0
+	blocked := false
 	for {
 		if c.closed {
 			s.Mu.Unlock()
@@ -254,6 +260,13 @@ func (c *SimConn) Write(p []byte) (int, error) {
 			return written, errPipe("write", c)
 		}
 		if c.Peer.closed {
+			if c.LingerData && blocked {
+				// the bytes sent earlier in this call were answered with a reset while the writer waited
+				c.gotRST = true
+				s.Mu.Unlock()
+				c.n.ep.Probe("write-epipe-linger")
+				return written, errPipe("write", c)
+			}
 			// kernel accepts the bytes, the peer answers RST
 			c.gotRST = true
 			s.Mu.Unlock()
@@ -292,6 +305,7 @@ func (c *SimConn) Write(p []byte) (int, error) {
 			}
 		}
 		// blocked on a full socket buffer
+		blocked = true
 		now := time.Now()
 		if !c.wdl.IsZero() && !now.Before(c.wdl) {
 			s.Mu.Unlock()
@@ -577,7 +591,7 @@ func (n *Net) Enabled(add func(Event)) {
 		if w := c.ww; w != nil && w.task != nil && w.task.site != "" {
 			out := c.Out
 			switch {
-			case c.closed, out.rst, w.timedOut:
+			case c.closed, out.rst, w.timedOut, c.LingerData && c.Peer != nil && c.Peer.closed:
 				cs = append(cs, cand{"wake-writer " + c.Name, 10, func() { s.Release(w.task) }, true})
 			case out.Cap > 0 && out.inflightLen() < out.Cap:
 				cs = append(cs, cand{"wake-writer " + c.Name, 10, func() { s.Release(w.task) }, true})
